@@ -83,7 +83,7 @@ func checkC11(h *harness.H, ci interface{}) *harness.Failure {
 				if a2 > 16<<20 && a1 > 0 && float64(a2)/float64(a1) > 2.6 {
 					super, desc, ok := scalingExperiment(h, c.Scale)
 					if ok && super {
-						return harness.Failf("parsing work grows faster than linearly for %s inputs: %s\ninput: %q", c.Kind, desc, short(c.Text, 300))
+						return knownN17(c, harness.Failf("parsing work grows faster than linearly for %s inputs: %s\ninput: %q", c.Kind, desc, short(c.Text, 300)))
 					}
 					h.S.Count("doubling_probe_not_confirmed")
 				}
@@ -99,7 +99,7 @@ func checkC11(h *harness.H, ci interface{}) *harness.Failure {
 					return &harness.Failure{Inconclusive: true, Msg: "scaling experiment failed"}
 				}
 				if super {
-					return harness.Failf("parsing work grows faster than linearly for %s inputs: %s\ninput: %q", c.Kind, desc, short(c.Text, 300))
+					return knownN17(c, harness.Failf("parsing work grows faster than linearly for %s inputs: %s\ninput: %q", c.Kind, desc, short(c.Text, 300)))
 				}
 				h.S.Count("slow_but_linear")
 				return nil
@@ -144,6 +144,20 @@ func checkC11(h *harness.H, ci interface{}) *harness.Failure {
 // function of the input alone. Linear work allocates ~2x at each doubling (the LALR stack doubles
 // geometrically), n log n ~2.1x, quadratic copying ~4x. superLinear is true iff the allocation grows
 // by more than 2.6x at both doublings and the 4n parse allocates more than 64 MB.
+// knownN17: the known finding is the free-name computation that ParseString performs for a process
+// declared under several provider names (quadratic allocation, cubic time in the number of
+// distinct free names of its body). It is recognised by its trigger - a size-driven input whose
+// fixed prefix declares one process with two or more provider names and whose repeated part adds
+// distinct names to that process' body; any other super-linear shape stays a violation.
+func knownN17(c *caseText, f *harness.Failure) *harness.Failure {
+	if c.Scale != nil && c.Scale.Numbered && multiProviderPrefix.MatchString(c.Scale.Prefix) && !strings.Contains(c.Scale.Open, "prc") {
+		f.Known = "N17"
+	}
+	return f
+}
+
+var multiProviderPrefix = regexp.MustCompile(`^prc\[[^\],]+,[^\]]+\][^\n]*=[^\n]*$`)
+
 func scalingExperiment(h *harness.H, sc *gen.Scale) (superLinear bool, desc string, ok bool) {
 	w, err := pool.Start(h.Opts())
 	if err != nil {
